@@ -2,5 +2,7 @@
    Proofs_geom (direction / cylinder / bench test, exchange of the samples, translation of one pair), Proofs_vg (variogram,
    one pair), Proofs_main (whole data set: pairwise sums, permutation, translation), Proofs_out (reported vectors),
    Proofs_misc (sqrt enclosure, symmetry in the variables, generic form), Proofs_cov (covariance), Proofs_bysample (by-sample algorithm), Proofs_sym (permutation, symmetric
-   estimators), Proofs_outcov (reported covariance), Proofs_real (lag class over the real square root). *)
-From Gst Require Export C12.Proofs_enum C12.Proofs_lag C12.Proofs_acc C12.Proofs_geom C12.Proofs_vg C12.Proofs_main C12.Proofs_out C12.Proofs_misc C12.Proofs_cov C12.Proofs_bysample C12.Proofs_sym C12.Proofs_outcov C12.Proofs_real.
+   estimators), Proofs_outcov (reported covariance), Proofs_real (lag class over the real square root), Proofs_ext (irregular lags, grid indices, conservation,
+   cloud), Proofs_grid (variogram map), Proofs_grideq / Proofs_grideqcov (grid algorithm = general algorithm, variogram / covariance),
+   Proofs_gen (generalised variograms). *)
+From Gst Require Export C12.Proofs_enum C12.Proofs_lag C12.Proofs_acc C12.Proofs_geom C12.Proofs_vg C12.Proofs_main C12.Proofs_out C12.Proofs_misc C12.Proofs_cov C12.Proofs_bysample C12.Proofs_sym C12.Proofs_outcov C12.Proofs_real C12.Proofs_ext C12.Proofs_grid C12.Proofs_grideq C12.Proofs_grideqcov C12.Proofs_gen.
